@@ -94,6 +94,38 @@ def writer_by_variant(p, f, adt, status_adt=None):
     return out
 
 
+def reader_by_opcode(p, f, adt, opcodes):
+    """which variant a decoder builds for each opcode, however the dispatch is written (one match, a range arm re-matched inside,
+    a lookup helper): the dispatch byte is the scrutinee of the decoder's widest u8 switch and its copies; the decoder is walked
+    once per opcode with that byte known (axvlib.absint). Returns {opcode: (feasible blocks, built variants)} or None."""
+    from axvlib import absint
+    isw = list(int_switches(f, "u8"))
+    if not isw:
+        return None
+    bi, t = max(isw, key=lambda x: len(x[1]["targets"]))
+    l0 = op_local(t["o"])
+    if l0 is None:
+        return None
+    # the byte and its copies (`match cmd { 1..=4 => .. match cmd {..} }` switches on fresh copies of one local)
+    root = l0
+    for _ in range(4):
+        defs = [st for b_ in f.blocks for st in b_["stmts"] if st["dst"] == [root]]
+        if len(defs) == 1 and defs[0]["rv"].get("r") == "use" and op_local(defs[0]["rv"]["o"][0]) is not None and \
+                len((defs[0]["rv"]["o"][0].get("c") or defs[0]["rv"]["o"][0].get("m"))) == 1:
+            root = op_local(defs[0]["rv"]["o"][0])
+        else:
+            break
+    out = {}
+    for v in opcodes:
+        ps = absint.PathSearch(p, f, fixed_locals={root: ("k", v)})
+        try:
+            F, _ = ps.explore(0)
+        except absint.TooManyStates:
+            return None
+        out[v] = (F, built_variant(f, F, adt))
+    return out
+
+
 def built_variant(f, blocks, adt):
     vs = set()
     for bi, s in core.region_aggregates(f, blocks, adt):
@@ -139,6 +171,13 @@ def check(cx):
             for val, tgt in t["targets"]:
                 rd[val] = built_variant(ff, dominated(ff, tgt), REQ)
             other = built_variant(ff, dominated(ff, t["otherwise"]), REQ)
+            written = sorted({o for ops_ in w.values() for o in ops_})
+            if written and any(not rd.get(o) for o in written):
+                # some opcode has no arm of its own in the widest switch (merged into a range arm, ...): evaluate the decoder per opcode
+                rbo = reader_by_opcode(p, ff, REQ, written + [v_ for v_ in range(0, 256) if v_ not in written][:3])
+                if rbo:
+                    rd = {o: rbo[o][1] for o in written if rbo[o][1]}
+                    other = set().union(*[rbo[o][1] for o in rbo if o not in written]) if any(o not in written for o in rbo) else other
             cx.verdict(not other, r1, "unknown-opcode-rejected", ff.where(), "the default arm builds no Request",
                        "an unknown opcode is decoded as %s" % sorted(other))
         for v in [x["name"] for x in p.enum_variants(REQ)]:
@@ -498,6 +537,15 @@ def check(cx):
                 else:
                     ws = sig.signature(ft, tgt, dominated(ft, tgt), "w", SF, p)
                     ops = [x[1] for x in pushed_consts(ft, dominated(ft, tgt)) if x[0] == "byte"]
+                if len(ops) == 1 and ops[0] not in rd_t:
+                    # no arm of its own in the widest switch: the items consumed on the blocks this opcode can reach
+                    rbo7 = reader_by_opcode(p, ff, REQ, [ops[0]])
+                    if rbo7 and rbo7[ops[0]][1] == {v}:
+                        rs = sig.signature(ff, 0, rbo7[ops[0]][0], "r", SF, p)
+                        body = ws[2:].strip() if ws.startswith("u8") else ws
+                        cx.verdict(body == rs, r7, "Request::" + v, ft.where(), "both sides: <%s>" % body,
+                                   "Request::%s is written as <%s> but read as <%s>" % (v, body, rs))
+                        continue
                 if len(ops) != 1 or ops[0] not in rd_t:
                     cx.bad(r7, "Request::" + v, ft.where(), "no unique opcode/decoder arm")
                     continue
